@@ -13,6 +13,9 @@ claimed = {
  "C06": ("lock-set dataflow with callee summaries (no nested acquisition), critical-section and ordering rules over go/ssa",
          "Decides: no module mutex acquired while one is held (found and fixed F4), registry check-or-insert atomic under the project lock, loading edge published before and cleared after waiting, publication order in done, wake-ups on all exits, ExecFile only from the insert branch, cyclic error only when the chain walk met the waiter and the walk advances.",
          "Trusts go/ssa, sync semantics; frozen single-threaded phases (Reload, post-barrier iteration) listed in the checker. Termination under all interleavings not decided."),
+ "C07": ("table-agreement between encoder and decoder extracted from go/ssa (opcode sets, byte layouts, guard intervals vs widths, memo parity, MARK pairing, type agreement)",
+         "Decides that the two hand-written opcode tables agree: every emitted opcode has a case; payload byte k carries value>>8k on both sides (found and fixed F1); emission guards fit the decoded width/signedness; memo ids and MEMOIZE stay in lock-step; containers are memoized before contents; operand order of TUPLE2/3; MARKs are closed; container and scalar types agree. Round-trip equality for all values is a behavioural consequence that is not itself decided.",
+         "Trusts go/ssa; the extractor recognises the scratch-array + Write idiom and the switch-on-readByte dispatch (other shapes are reported undecided). Lengths/ids < 2^32 assumed."),
  "C09": ("pairing on all paths + lock-set + dominance over go/ssa",
          "Decides slot pairing on every exit (enter/defer exit in run, exit/defer enter in EvaluateTargets, no other mover), capacity only under gate.m with the zero test, Wait and decrement in one critical section, +1/-1 deltas, Signal after increment, work inside a slot, waiting outside, limit = runtime.NumCPU().",
          "Trusts go/ssa and Mutex/Cond semantics; the instantaneous bound follows from these but is not observed."),
